@@ -193,6 +193,12 @@ var trUnits = []trUnit{
 		effectField: "ops", effectOwner: "KnownHostsCallback", effectType: "GoFOp",
 		scanners: []string{"scanner"},
 		funcs:    []string{"KnownHostsCallback.trustHosts"}},
+	{ns: "Keys", pkgDir: "internal/ssh/server", panics: true,
+		structs: map[string][]string{},
+		subst: map[string]string{"authorizedPubKey.Marshal()": "authorizedPubKey", "offeredPubKey.Marshal()": "offeredPubKey",
+			`&gossh.Permissions{ Extensions: map[string]string{"pubkey-fp": gossh.FingerprintSHA256(offeredPubKey)}, }`: "(GoZero.zero : GoPerms)"},
+		callExt: map[string]string{"gossh.ParseAuthorizedKey": "parseAuthorizedKey"},
+		funcs:   []string{"verifyAuthorizedKeys"}},
 	{ns: "Brush", pkgDir: "internal/color/brush", panics: true,
 		structs:     map[string][]string{},
 		appendCalls: map[string]int{"color.PaintWithAttr": 1},
@@ -376,6 +382,8 @@ func (p *trPkg) leanType(e ast.Expr) string {
 			return "GoConnMeta"
 		case "gossh.Permissions":
 			return "GoPerms"
+		case "gossh.PublicKey":
+			return "GoString" // a public key is its marshalled form
 		case "user.User":
 			return "GoUser"
 		}
@@ -2321,9 +2329,9 @@ func (f *trFn) binop(n ast.Node, op, x, y string) string {
 
 func (f *trFn) expr(e ast.Expr) string {
 	if len(f.p.unit.subst) > 0 {
-		text := strings.ReplaceAll(src(e), " ", "")
+		text := strings.Join(strings.Fields(src(e)), "")
 		for k, t := range f.p.unit.subst {
-			if strings.ReplaceAll(k, " ", "") == text {
+			if strings.Join(strings.Fields(k), "") == text {
 				return t
 			}
 		}
@@ -2461,6 +2469,10 @@ func (f *trFn) expr(e ast.Expr) string {
 		case *ast.StructType:
 			if (t.Fields == nil || len(t.Fields.List) == 0) && len(v.Elts) == 0 {
 				return "()"
+			}
+		case *ast.MapType:
+			if len(v.Elts) == 0 {
+				return "(GoZero.zero : " + f.p.leanType(t) + ")"
 			}
 		case *ast.ArrayType:
 			if _, isEllipsis := t.Len.(*ast.Ellipsis); t.Len == nil || isEllipsis {
@@ -2898,6 +2910,13 @@ func (p *trPkg) mapVarsOf(ftype *ast.FuncType, body *ast.BlockStmt) map[string]b
 		if as, ok := n.(*ast.AssignStmt); ok && len(as.Lhs) == 1 && len(as.Rhs) == 1 {
 			if call, ok := as.Rhs[0].(*ast.CallExpr); ok && src(call.Fun) == "make" && len(call.Args) > 0 {
 				if _, isMap := call.Args[0].(*ast.MapType); isMap {
+					if id, ok := as.Lhs[0].(*ast.Ident); ok {
+						m[id.Name] = true
+					}
+				}
+			}
+			if cl, ok := as.Rhs[0].(*ast.CompositeLit); ok {
+				if _, isMap := cl.Type.(*ast.MapType); isMap {
 					if id, ok := as.Lhs[0].(*ast.Ident); ok {
 						m[id.Name] = true
 					}
